@@ -4,7 +4,7 @@
 use crate::guarded;
 use crate::sx::*;
 use easy_ml::matrices::slices::{Slice, Slice2D};
-use easy_ml::matrices::views::MatrixRef;
+use easy_ml::matrices::views::{MatrixMut, MatrixRef};
 use easy_ml::matrices::Matrix;
 
 fn slice(s: &Sx) -> Option<Slice> {
@@ -97,6 +97,20 @@ fn start(s: &Sx) -> Option<Option<Matrix<i64>>> {
         (4, 2) => {
             let vals = v[1].i64s()?;
             guarded(move || Matrix::column(vals))
+        }
+        (5, 3) => {
+            let (r, c) = (v[1].usize()?, v[2].usize()?);
+            if r > 64 || c > 64 {
+                return None;
+            }
+            guarded(move || Matrix::from_fn((r, c), |(i, j)| 100 + 10 * i as i64 + j as i64))
+        }
+        (6, 4) => {
+            let (r, c, x) = (v[1].usize()?, v[2].usize()?, v[3].i64()?);
+            if r > 64 || c > 64 {
+                return None;
+            }
+            guarded(move || Matrix::empty(x, (r, c)))
         }
         _ => return None,
     })
@@ -227,10 +241,45 @@ pub fn run(args: &[Sx]) -> Sx {
                 None => false,
             },
             Op::TransposeMut => guarded(|| m.transpose_mut()).is_some(),
-            Op::Set(r, c, v) => guarded(|| m.set(r, c, v)).is_some(),
-            Op::MapMut(k) => guarded(|| m.map_mut(|x| x + k)).is_some(),
+            Op::Set(r, c, v) => {
+                // every way of writing one element must agree with `set`
+                let mut a = m.clone();
+                let wrote_a = guarded(|| *a.get_reference_mut(r, c) = v).is_some();
+                let mut b = m.clone();
+                let wrote_b = match guarded(|| b.try_get_reference_mut(r, c).map(|cell| *cell = v)) {
+                    Some(Some(())) => true,
+                    Some(None) => false,
+                    None => return inconsistent(1130),
+                };
+                let wrote = guarded(|| m.set(r, c, v)).is_some();
+                if wrote_a != wrote || wrote_b != wrote || a != m || b != m {
+                    return inconsistent(1131);
+                }
+                if wrote {
+                    let mut d = m.clone();
+                    unsafe { *d.get_reference_unchecked_mut(r, c) = v };
+                    if d != m || unsafe { *m.get_reference_unchecked(r, c) } != v {
+                        return inconsistent(1132);
+                    }
+                }
+                wrote
+            }
+            Op::MapMut(k) => {
+                let mapped = guarded(|| m.map(|x| x + k));
+                let fine = guarded(|| m.map_mut(|x| x + k)).is_some();
+                if mapped.as_ref() != Some(&m) || !fine {
+                    return inconsistent(1133);
+                }
+                fine
+            }
             Op::MapMutWithIndex(k) => {
-                guarded(|| m.map_mut_with_index(|x, i, j| x + k * (10 * i as i64 + j as i64 + 1))).is_some()
+                let f = |x: i64, i: usize, j: usize| x + k * (10 * i as i64 + j as i64 + 1);
+                let mapped = guarded(|| m.map_with_index(f));
+                let fine = guarded(|| m.map_mut_with_index(f)).is_some();
+                if mapped.as_ref() != Some(&m) || !fine {
+                    return inconsistent(1134);
+                }
+                fine
             }
         };
         out.push(l(vec![z(if fine { 0 } else { 2 }), observe(&m)]));
